@@ -140,7 +140,7 @@ def _velocity(sym, i, default, what='v'):
 
 def _bounded(sym, name, lim, lo_zero=False):
     """symbolic real in [-lim, lim] (or [0, lim]); lim may be symbolic (then it is an assumption, one fork)."""
-    if isinstance(lim, float):
+    if not is_sym(lim):
         return sym.real(name, 0.0 if lo_zero else -lim, lim)
     x = sym.real(name, 0.0 if lo_zero else -10.0, 10.0)
     sym.assume(_and(x <= lim, -lim <= x))
@@ -176,8 +176,14 @@ def mc_step(sym, i, kind, mc, clock):
         call = lambda: getattr(mc, kind)(a, *ra)
     elif kind in ('circle_left', 'circle_right'):
         sgn = 1 if kind == 'circle_left' else -1
-        var = sym.choice(f'csel{i}', 3)
-        if var == 0:          # radius symbolic, full circle (default angle), velocity 0.5
+        var = 3 if B.get('symv') else sym.choice(f'csel{i}', 3)
+        if var == 3:          # thorough: radius, velocity and angle symbolic
+            r, v, a = sym.real(f'r{i}', 0.05, 2.0), sym.real(f'v{i}', 0.1, 1.0), sym.real(f'a{i}', 0.0, 720.0)
+            arc = 2 * r * math.pi * a / 360.0
+            sym.assume(arc <= span * v)
+            spec = dict(type='block', D=(arc, 0.0, 0.0, sgn * a))
+            call = lambda: getattr(mc, kind)(r, v, a)
+        elif var == 0:          # radius symbolic, full circle (default angle), velocity 0.5
             v = 0.5
             r = sym.real(f'r{i}', 0.001, span * v / (2 * math.pi))
             spec = dict(type='block', D=(2 * r * math.pi, 0.0, 0.0, sgn * 360.0))
@@ -204,7 +210,7 @@ def mc_step(sym, i, kind, mc, clock):
         idle = True
     elif kind in ('start_circle_left', 'start_circle_right'):
         sgn = 1 if kind == 'start_circle_left' else -1
-        v = 0.5
+        v = sym.real(f'v{i}', 0.1, 1.0) if B.get('symv') else 0.5
         r = sym.real(f'r{i}', 0.05, 2.0)
         spec = dict(type='start', V=(v, 0.0, 0.0, None), circle=(r, sgn))     # yaw rate * 2 pi r == 360 v
         call = lambda: getattr(mc, kind)(r, v)
@@ -263,25 +269,39 @@ def h_mc(sym):
     sym.apply_known()
     specs = []
     flight_exc = None
-    raise_in_body = False
+    rm = B.get('raise_mode', 'sym')
+
+    def take_off_spec(height):
+        # taking off is "go up to `height`" from the ground; the library default is a python float and the code then
+        # divides doubles (0.2 * 0.3 / 0.3): tolerance
+        q = clock.queues[-1]
+        specs.append(dict(type='block', kind='take_off', D=(0.0, 0.0, height, 0.0), put0=0, put1=q.nput, raised=None,
+                          tol=0.0 if is_sym(height) else 1e-9))
+
+    def body():
+        for i in range(n):
+            specs.append(mc_step(sym, i, kinds[i][sym.choice(f'k{i}', len(kinds[i]))], mc, clock))
+        if (True if sym.bool('raise') else False) if rm == 'sym' else (rm == 'yes'):
+            raise BodyError()
     try:
         if explicit:
+            va, _ = _velocity(sym, 'T', MotionCommander.VELOCITY)
+            vl, _ = _velocity(sym, 'L', MotionCommander.VELOCITY)
             try:
                 if h0 is not None:
-                    mc.take_off(h0)
+                    mc.take_off(h0, *va)
+                elif va:
+                    mc.take_off(velocity=va[0])
                 else:
                     mc.take_off()
-                for i in range(n):
-                    specs.append(mc_step(sym, i, kinds[i][sym.choice(f'k{i}', len(kinds[i]))], mc, clock))
+                take_off_spec(h0 if h0 is not None else 0.3)
+                body()
             finally:
-                mc.land()
+                mc.land(*vl)
         else:
             with mc:
-                for i in range(n):
-                    specs.append(mc_step(sym, i, kinds[i][sym.choice(f'k{i}', len(kinds[i]))], mc, clock))
-                raise_in_body = True if sym.bool('raise') else False
-                if raise_in_body:
-                    raise BodyError()
+                take_off_spec(h0 if h0 is not None else 0.3)
+                body()
     except BodyError:
         sym.goal('body-raised')
     except Exception as e:
@@ -299,6 +319,9 @@ def h_mc(sym):
         assert all(x == 'hover' for x in names[:-2]), ('unexpected command in the stream', [x for x in names[:-2] if x != 'hover'][:3])
     clock.sleep(3 * PERIOD)
     assert len(log) == n_end, f'{len(log) - n_end} hover setpoint(s) streamed after the flight was left (exception: {flight_exc})'
+    if flight_exc is None:
+        mc.land()               # landing again is a no-op
+        assert len(log) == n_end, 'command sent by land() after the flight was over'
     assert not clock.tasks, 'setpoint task still alive'
     assert flight_exc is None, f'take-off / landing raised {flight_exc}'
     for s in specs:
@@ -375,13 +398,262 @@ def h_mc(sym):
             sym.goal('non-blocking')
 
 
+# ------------------------------------------------------------------------------------------------ PositionHlCommander
+PHL_LIN = LIN
+PHL_KINDS = ['forward', 'back', 'left', 'right', 'up', 'down', 'move', 'go_to', 'go_to_default_z', 'set_default_velocity',
+             'set_default_height', 'set_landing_height']
+
+
+def _opt(sym, name, lo, hi, present=None):
+    """An optional argument: (present?, value). Present -> symbolic real."""
+    if present is None:
+        present = True if sym.bool('has_' + name) else False
+    return (True, sym.real(name, lo, hi)) if present else (False, None)
+
+
+def h_phl(sym):
+    B = sym.B
+    clock = Clock(sym.real('t0', 0.0, 1000.0), 'eager')
+    install(clock, [PH])
+    cf = CF(clock)
+    hl = cf.high_level_commander.log
+    R = B.get('range', 4.0)
+    start = [sym.real('x0', -R, R), sym.real('y0', -R, R), sym.real('z0', -R, R)]
+    kw = {}
+    st = dict(v=0.5, h=0.5, lh=0.0)          # documented defaults of the constructor
+    for key, arg, lo, hi in (('v', 'default_velocity', 0.1, 2.0), ('h', 'default_height', 0.1, 2.0),
+                             ('lh', 'default_landing_height', -R, R)):
+        has, val = _opt(sym, 'c_' + key, lo, hi, present=None if B.get('ctor_args', True) else False)
+        if has:
+            kw[arg] = val
+            st[key] = val
+    pc = PositionHlCommander(cf, start[0], start[1], start[2], **kw)
+    assert not hl
+    clock.sleep(sym.real('w0', 0.0, 2.0))          # the user does something else between construction and take-off
+    kinds = B['kinds']
+    n = sym.choice('n', len(kinds) + 1) if B.get('varlen', True) else len(kinds)
+    explicit = B.get('mode', 'with') == 'explicit'
+    sym.apply_known()
+    ck = Checks(sym)
+    pos = list(start)
+    flight_exc = None
+
+    def position_is(where):
+        got = pc.get_position()
+        for j in range(3):
+            ck.eq(got[j], pos[j], f'position: get_position() {"xyz"[j]} != start + commanded displacements ({where})')
+
+    def step(i):
+        kind = kinds[i][sym.choice(f'k{i}', len(kinds[i]))]
+        n0 = len(hl)
+        target = None
+        vel = st['v']
+        if kind in PHL_LIN or kind == 'move':
+            has_v, v = _opt(sym, f'v{i}', 0.1, 2.0, present=None if B.get('step_v', True) else False)
+            va = [v] if has_v else []
+            vel = v if has_v else st['v']
+            if kind == 'move':
+                dx, dy, dz = (sym.real(f'm{i}{c}', -R, R) for c in 'xyz')
+                pc.move_distance(dx, dy, dz, *va)
+            else:
+                d = sym.real(f'd{i}', -R, R)
+                ax = PHL_LIN[kind]
+                dx, dy, dz = ax[0] * d, ax[1] * d, ax[2] * d
+                getattr(pc, kind)(d, *va)
+            target = [pos[0] + dx, pos[1] + dy, pos[2] + dz]
+        elif kind in ('go_to', 'go_to_default_z'):
+            has_v, v = _opt(sym, f'v{i}', 0.1, 2.0, present=None if B.get('step_v', True) else False)
+            vel = v if has_v else st['v']
+            gx, gy = sym.real(f'g{i}x', -R, R), sym.real(f'g{i}y', -R, R)
+            if kind == 'go_to':
+                gz = sym.real(f'g{i}z', -R, R)
+                if has_v:
+                    pc.go_to(gx, gy, gz, v)
+                else:
+                    pc.go_to(gx, gy, gz)
+            else:
+                gz = st['h']
+                if has_v:
+                    pc.go_to(gx, gy, velocity=v)
+                else:
+                    pc.go_to(gx, gy)
+            target = [gx, gy, gz]
+        elif kind == 'set_default_velocity':
+            st['v'] = sym.real(f'sv{i}', 0.1, 2.0)
+            pc.set_default_velocity(st['v'])
+        elif kind == 'set_default_height':
+            st['h'] = sym.real(f'sh{i}', -R, R)
+            pc.set_default_height(st['h'])
+        elif kind == 'set_landing_height':
+            st['lh'] = sym.real(f'sl{i}', -R, R)
+            pc.set_landing_height(st['lh'])
+        else:
+            raise AssertionError(kind)
+        new = hl[n0:]
+        if target is None:
+            assert not new, 'a settings change sent a command'
+        else:
+            delta = [target[j] - pos[j] for j in range(3)]
+            assert len(new) <= 1, 'more than one command for one primitive'
+            if not new:
+                ck.add(_and(delta[0] == 0, delta[1] == 0, delta[2] == 0), 'go_to: no command sent for a non-zero displacement')
+                sym.goal('zero-move')
+            else:
+                name, _, a = new[0]
+                assert name == 'go_to', name
+                x, y, z, yaw, dur, relative = a[0], a[1], a[2], a[3], a[4], a[5]
+                assert not relative, 'relative go_to'
+                for j, g in enumerate((x, y, z)):
+                    ck.eq(g, target[j], f'go_to: target {"xyz"[j]} is not start + commanded displacements')
+                ck.le(0.0, dur, 'go_to: negative duration')
+                dv = dur * vel
+                ck.eq(dv * dv, delta[0] * delta[0] + delta[1] * delta[1] + delta[2] * delta[2], 'go_to: duration != distance / velocity')
+                sym.goal('go_to')
+            pos[:] = target
+        position_is(kind)
+        ck.flush(kind)
+
+    try:
+        if explicit:
+            has_h, h = _opt(sym, 'to_h', 0.1, 2.0)
+            has_v, v = _opt(sym, 'to_v', 0.1, 2.0)
+            lkw = {}
+            try:
+                pc.take_off(**({'height': h} if has_h else {}), **({'velocity': v} if has_v else {}))
+                pos[2] = h if has_h else st['h']
+                for i in range(n):
+                    step(i)
+            finally:
+                has_lv, lv = _opt(sym, 'l_v', 0.1, 2.0)
+                has_lh, lh_arg = _opt(sym, 'l_h', -R, R)
+                if has_lv:
+                    lkw['velocity'] = lv
+                if has_lh:
+                    lkw['landing_height'] = lh_arg
+                land_v = lv if has_lv else st['v']
+                land_h = lh_arg if has_lh else st['lh']
+                z_before = pos[2]
+                pc.land(**lkw)
+        else:
+            try:
+                with pc:
+                    pos[2] = st['h']
+                    position_is('take_off')
+                    for i in range(n):
+                        step(i)
+                    land_v, land_h, z_before = st['v'], st['lh'], pos[2]
+                    if sym.bool('raise'):
+                        raise BodyError()
+            finally:
+                land_v, land_h, z_before = st['v'], st['lh'], pos[2]
+    except BodyError:
+        sym.goal('body-raised')
+    except Exception as e:
+        if _is_control(e):
+            raise
+        flight_exc = type(e).__name__
+    names = [e[0] for e in hl]
+    assert names[:1] == ['takeoff'], names[:2]
+    assert names[-2:] == ['land', 'stop'], f'flight left (exception: {flight_exc}) without land + stop at the end of the command ' \
+                                           f'stream: ...{names[-3:]}'
+    assert flight_exc is None, f'take-off / landing raised {flight_exc}'
+    assert all(x == 'go_to' for x in names[1:-2])
+    la = hl[-2][2]
+    ck.eq(la[0], land_h, 'land: not to the landing height')
+    pos[2] = land_h
+    position_is('land')
+    ck.flush('land')
+    n_end = len(hl)
+    pc.land()
+    assert len(hl) == n_end, 'command sent after the flight was over'
+    sym.goal('landed')
+
+
 ALL_BLOCK = ['forward', 'back', 'left', 'right', 'up', 'down', 'move', 'turn_left', 'turn_right', 'circle_left', 'circle_right']
 ALL_START = ['start_forward', 'start_back', 'start_left', 'start_right', 'start_up', 'start_down', 'start_turn_left',
              'start_turn_right', 'start_circle_left', 'start_circle_right', 'start_linear_motion', 'stop', 'wait']
 
 _REAL = dict(float_model='real', per_path=120.0)
+_G1 = ('landed', 'blocking', 'body-raised', 'streamed-during-primitive')
+_G1S = ('landed', 'non-blocking', 'body-raised')
+_PAIR2 = ['up', 'down', 'forward', 'turn_left', 'start_down', 'stop']
+_NOALT = dict(alt_v=[], alt_rate=[])
+
+
+def _single(name, kinds, goals, sched='any', t=(280, 1700), **extra):
+    """One primitive (or none) inside `with MotionCommander`: every duration up to 6 update periods, library-default or one
+    other velocity (quick) / symbolic velocity per kind (thorough harnesses mc1v[*]), raise-in-body flag symbolic."""
+    return Harness(f'mc1[{name}]', h_mc, quick=dict(kinds=[kinds], periods=6, sched=sched, **extra), timeout=t, goals=goals, **_REAL)
+
+
+def _singlev(name, kinds, goals, sched='any', **extra):
+    return Harness(f'mc1v[{name}]', h_mc, quick=dict(kinds=[kinds], periods=6, sched=sched, symv=True, **extra), timeout=(1700, 1700),
+                   tiers=('thorough',), goals=goals, **_REAL)
+
+
+def _pair(first, sched, raise_mode):
+    q = dict(kinds=[[first], _PAIR2], periods=2, sched=sched, varlen=False, raise_mode=raise_mode, **_NOALT)
+    th = dict(kinds=[[first], _PAIR2], periods=4, sched=sched, varlen=False, raise_mode=raise_mode, **_NOALT)
+    goals = ('landed', 'blocking') if first in ALL_BLOCK else ('landed', 'non-blocking')
+    return Harness(f'mc2[{first}]', h_mc, quick=q, thorough=th, timeout=(280, 1700),
+                   goals=goals + (('body-raised',) if raise_mode == 'yes' else ()), **_REAL)
+
+
+def _triple(first, sched, raise_mode):
+    b = dict(kinds=[[first], ['up', 'down', 'start_down', 'stop'], ['down', 'forward', 'start_up', 'stop']], periods=2, sched=sched,
+             varlen=False, raise_mode=raise_mode, **_NOALT)
+    return Harness(f'mc3[{first}]', h_mc, quick=b, timeout=(1700, 1700), tiers=('thorough',), goals=('landed',), **_REAL)
+
 
 HARNESSES = [
-    Harness('mc_single[block]', h_mc, quick=dict(kinds=[ALL_BLOCK], periods=6), timeout=(280, 1500),
-            goals=('landed', 'blocking', 'body-raised', 'streamed-during-primitive'), **_REAL),
+    _single('horizontal', ['forward', 'back', 'left', 'right'], _G1),
+    _single('vertical,eager', ['up', 'down'], _G1, sched='eager'),
+    _single('vertical,lazy', ['up', 'down'], _G1, sched='lazy'),
+    _single('move,eager', ['move'], _G1, sched='eager'),
+    _single('move,lazy', ['move'], _G1, sched='lazy'),
+    _single('turn,circle', ['turn_left', 'turn_right', 'circle_left', 'circle_right'], _G1),
+    _single('start-linear', ALL_START[:6], _G1S),
+    _single('start-other', ALL_START[6:], _G1S),
+    # thorough: the same single-primitive programs with symbolic velocities / rates (and all three components of move_distance)
+    _singlev('horizontal', ['forward', 'back', 'left', 'right'], _G1),
+    _singlev('vertical,eager', ['up', 'down'], _G1, sched='eager'),
+    _singlev('vertical,lazy', ['up', 'down'], _G1, sched='lazy'),
+    _singlev('move', ['move'], _G1, sched='eager', move_sym=3, raise_mode='no'),
+    _singlev('turn,circle', ['turn_left', 'turn_right', 'circle_left', 'circle_right'], _G1),
+    _singlev('start-linear', ALL_START[:6], _G1S),
+    _singlev('start-other', ALL_START[6:], _G1S),
+    # take-off height symbolic (0 included): as constructor default inside `with`, and as argument of take_off() ... land()
+    Harness('mc_height[with]', h_mc, quick=dict(kinds=[['down', 'forward', 'stop']], periods=2, sched='any', sym_height=True, **_NOALT),
+            thorough=dict(kinds=[['up', 'down', 'forward', 'stop', 'start_down']], periods=4, sched='any', sym_height=True, **_NOALT),
+            timeout=(280, 1700), goals=('landed', 'blocking', 'body-raised'), **_REAL),
+    Harness('mc_height[explicit]', h_mc, quick=dict(kinds=[['down', 'start_down', 'turn_left']], periods=2, sched='any', sym_height=True,
+                                                    mode='explicit', raise_mode='no', **_NOALT),
+            thorough=dict(kinds=[['down', 'start_down', 'turn_left', 'up']], periods=4, sched='any', sym_height=True,
+                          mode='explicit', raise_mode='sym', **_NOALT),
+            timeout=(280, 1700), goals=('landed', 'blocking'), **_REAL),
+    Harness('mc_explicit', h_mc, quick=dict(kinds=[['up', 'start_up']], periods=2, sched='any', mode='explicit', alt_rate=[]),
+            thorough=dict(kinds=[['up', 'forward', 'start_up', 'down', 'turn_left']], periods=4, sched='any', mode='explicit'),
+            timeout=(280, 1700), goals=('landed', 'blocking', 'body-raised'), **_REAL),
+    _pair('up', 'eager', 'no'), _pair('down', 'lazy', 'yes'), _pair('forward', 'lazy', 'no'), _pair('turn_left', 'eager', 'yes'),
+    _pair('start_up', 'eager', 'yes'), _pair('start_down', 'lazy', 'no'), _pair('start_forward', 'eager', 'no'),
+    _pair('stop', 'lazy', 'yes'),
+    _triple('up', 'eager', 'no'), _triple('start_up', 'lazy', 'yes'), _triple('down', 'lazy', 'no'), _triple('start_forward', 'eager', 'yes'),
+]
+HARNESSES += [
+    Harness('phl1', h_phl, quick=dict(kinds=[PHL_KINDS]), timeout=(280, 1700), goals=('landed', 'go_to', 'zero-move', 'body-raised'), **_REAL),
+    Harness('phl1[explicit]', h_phl, quick=dict(kinds=[['up', 'go_to', 'set_landing_height']], mode='explicit', ctor_args=False),
+            thorough=dict(kinds=[PHL_KINDS], mode='explicit', ctor_args=False),
+            timeout=(280, 1700), goals=('landed', 'go_to', 'zero-move'), **_REAL),
+    Harness('phl2', h_phl, quick=dict(kinds=[['up', 'right', 'go_to', 'set_default_velocity', 'set_default_height'],
+                                             ['down', 'move', 'go_to', 'go_to_default_z', 'set_landing_height']],
+                                      ctor_args=False, varlen=False, step_v=False),
+            thorough=dict(kinds=[PHL_KINDS, PHL_KINDS], ctor_args=False, varlen=False, step_v=False),
+            timeout=(280, 1700), goals=('landed', 'go_to', 'zero-move', 'body-raised'), **_REAL),
+    Harness('phl3', h_phl, quick=dict(kinds=[['up', 'go_to', 'set_default_velocity', 'set_default_height'],
+                                             ['move', 'go_to_default_z', 'left', 'set_landing_height'],
+                                             ['down', 'go_to', 'go_to_default_z', 'back']], ctor_args=False, varlen=False),
+            timeout=(1700, 1700), tiers=('thorough',), goals=('landed', 'go_to', 'zero-move', 'body-raised'), **_REAL),
+    Harness('phl4', h_phl, quick=dict(kinds=[['up', 'set_default_velocity'], ['go_to', 'set_default_height'], ['go_to_default_z', 'forward'],
+                                             ['down', 'move']], ctor_args=False, varlen=False),
+            timeout=(1700, 1700), tiers=('thorough',), goals=('landed', 'go_to', 'zero-move', 'body-raised'), **_REAL),
 ]
